@@ -75,6 +75,23 @@ Proof.
       rewrite (IH e o g4 bad None depth maxdg' path). reflexivity.
 Qed.
 
+Lemma resolve_loop_congr u u' : same_answers u u' ->
+  forall k fuel e o roots retried g, resolve_loop k fuel e u o roots retried g = resolve_loop k fuel e u' o roots retried g.
+Proof.
+  intros Hsame. induction k as [|k IH]; intros fuel e o roots retried g; cbn [resolve_loop]; [reflexivity|].
+  destruct (filter (fun nd => unsolved g nd && negb (nmem nd retried)) (sort_nodes g (visit_nodes g roots))) as [|nd rest]; [reflexivity|].
+  rewrite (compile_roots_congr u u' Hsame).
+  destruct (compile_roots fuel e u' o g nd None 1 resolve_pass_budget []) as [g'|g' nm sp|er]; [|reflexivity|reflexivity].
+  apply IH.
+Qed.
+
+Lemma resolve_unsolved_congr u u' : same_answers u u' ->
+  forall fuel e o roots r, resolve_unsolved fuel e u o roots r = resolve_unsolved fuel e u' o roots r.
+Proof.
+  intros Hsame fuel e o roots r. unfold resolve_unsolved. destruct r as [g2|g2 nm sp|er]; [|reflexivity|reflexivity].
+  apply resolve_loop_congr. exact Hsame.
+Qed.
+
 Theorem perform_compile_congr u u' : same_answers u u' ->
   forall fuel e inputs cons rc md ob_all ob extras,
   perform_compile_stack_x fuel e u inputs cons rc md ob_all ob extras = perform_compile_stack_x fuel e u' inputs cons rc md ob_all ob extras.
@@ -89,7 +106,7 @@ Proof.
                    | SOk ga => compile_roots fuel e u' (mkO (if all_pinned && match cons with Some (_ :: _) => true | _ => false end then pins else []) true ob_all ob extras)
                                  ga nd None 1 (match md with Some m => m | None => max_downgrade end) []
                    | other => other end)).
-  - reflexivity.
+  - rewrite (resolve_unsolved_congr u u' Hsame). reflexivity.
   - intros acc nd. destruct acc; [|reflexivity|reflexivity]. apply compile_roots_congr. exact Hsame.
 Qed.
 
